@@ -317,3 +317,18 @@ package network
 //@   ensures lazy: tr_len == old(tr_len)
 //@   requires simpleAPISelf != nil
 //@   ensures delegates: r0 == APIMakeDoNewRequestWithMultipartSerializer_r0 && APIMakeDoNewRequestWithMultipartSerializer_arg_simpleAPISelf == simpleAPISelf && APIMakeDoNewRequestWithMultipartSerializer_arg_relativeURL == relativeURL && APIMakeDoNewRequestWithMultipartSerializer_arg_method == "PATCH" && APIMakeDoNewRequestWithMultipartSerializer_arg_multipartSerializer == old(simpleAPISelf.RequestSerializerForMultipart)
+
+// constructors of SimpleHTTPDef: the object invariant holds from the start, the given interceptors are the list, in order
+//@ func NewSimpleHTTPWithClientAndInterceptors
+//@   prop C18
+//@   modifies client
+//@   requires client != nil
+//@   ensures made: r0 != nil && fresh(r0) && r0.client == client && client.Transport == boxed(r0) && r0.lastTransport == boxed(r0) && !untyped(r0.clientTransport) && r0.clientTransport != boxed(r0)
+//@   ensures list: len(r0.interceptors) == len(interceptors) && forall(k, 0, len(interceptors), r0.interceptors[k] == interceptors[k])
+//@ func NewSimpleHTTP
+//@   prop C18
+//@   ensures made: r0 != nil && fresh(r0) && r0.client != nil && fresh(r0.client) && r0.client.Transport == boxed(r0) && r0.lastTransport == boxed(r0) && !untyped(r0.clientTransport) && r0.clientTransport != boxed(r0) && len(r0.interceptors) == 0
+//@ func (SimpleHTTPDef).GetHTTPClient
+//@   prop C18
+//@   requires simpleHTTPSelf != nil
+//@   ensures def: r0 == simpleHTTPSelf.client
